@@ -204,7 +204,7 @@ class Gen2:
                 out += [p + "or when " + spec] + self.block(depth - 1, ind + 1, inloop)
             if multi:
                 self.facts["when_multi"] += 1
-            if rng.random() < 0.4:
+            if rng.random() < 0.1:
                 self.facts["when_else"] += 1
                 out += [p + "else"] + self.block(depth - 1, ind + 1, inloop, no_leading_if=True)
             return out
@@ -353,6 +353,7 @@ class Gen1:
             self.labels = []
             body = self.block(maxdepth, 1, False, top=True)
             flows.append("define flow f%d\n  user i%d\n  $x = %d\n%s\n" % (fi, self.uniq(), rng.randint(0, 1), "\n".join(body)))
+        self.labels = []
         sub = "define subflow sub a\n  $x = %d\n%s\n" % (rng.randint(0, 2), "\n".join(self.block(max(0, maxdepth - 1), 1, False)))
         return "\n".join(flows) + "\n" + sub
 
@@ -678,7 +679,9 @@ def setup_worker():
         rt.initialize_flow = initialize_flow
     from . import steps
 
-    steps.install([sliding])
+    from nemoguardrails.colang.v1_0.runtime import eval as v1eval
+
+    steps.install([sliding, v1eval])
 
     class Capture(logging.Handler):
         def __init__(self):
@@ -1021,6 +1024,12 @@ def _run_gen1(case):
     for f in flows:
         fc = _V1Flow(f)
         n = len(fc.elements)
+        if any(e.get("_type") == "jump" and not e.get("_absolute") and int(e.get("_next", 1)) <= 0
+               and not (0 <= i + int(e["_next"]) < n and fc.elements[i + int(e["_next"])].get("_type") == "while")
+               for i, e in enumerate(fc.elements)):
+            # a backward goto can spin without entering any counted function: static scan only
+            obs["dynamic_v1_skipped_backward_goto"] = obs.get("dynamic_v1_skipped_backward_goto", 0) + 1
+            continue
         state = _V1State({"x": rng.randint(0, 3)})
         head = 0
         hops = 0
